@@ -7,11 +7,13 @@ import struct
 import fam_akai as FA
 import fam_e2e as E
 import gen_akai as G
+import gen_roland as GR
 from common import Case, Finding, Report, run_driver
 
 ASSUMPTIONS = [
-    "the five deliveries are produced by independent wrappers in this file (raw, MODE1/2352 sectors, MDX header, cue->raw, cue->2352)",
-    "Roland images join with C02's generator",
+    "the seven deliveries are produced by independent wrappers in this file (raw, MODE1/2352 sectors, MDX header, cue->raw, cue->2352, cue->MDX, mixed-mode cue->2352 + audio tracks)",
+    "'over either of the former' is read as: over any of the binary deliveries, the MDX file included (the pinned tree handles it)",
+    "Roland images come from C02's generator (gen_roland); their `ls` paths are the exported paths and their parents",
 ]
 
 SYNC = bytes([0] + [0xFF] * 10 + [0])
@@ -52,28 +54,55 @@ def deliveries(scratch, img: bytes):
     with open(p, "w", encoding="ascii", newline="") as f:
         f.write(cue_for("data2352.bin", "MODE1/2352"))
     d["cue-2352"] = p
+    # a cue sheet over the MDX file (S56), and a mixed-mode sheet: a data track followed by audio tracks
+    scratch.write("datamdx.bin", wrap_mdx(img))
+    p = os.path.join(scratch.dir, "mdx.cue")
+    with open(p, "w", encoding="ascii", newline="") as f:
+        f.write(cue_for("datamdx.bin", "MODE1/2048"))
+    d["cue-mdx"] = p
+    p = os.path.join(scratch.dir, "mixed.cue")
+    with open(p, "w", encoding="ascii", newline="") as f:
+        f.write(cue_for("data2352.bin", "MODE1/2352") + '  TRACK 02 AUDIO\n    TITLE "Bonus"\n    INDEX 00 59:00:00\n    INDEX 01 59:02:00\n  TRACK 03 AUDIO\n    INDEX 01 61:00:00\n')
+    d["cue-2352+audio"] = p
     return d
 
 
 def run(ctx, rep: Report, deep: bool = False):
     rng = ctx.rng
     rep.rule = (
-        "every generated AKAI image x {raw, MODE1/2352 raw sectors, MDX wrapper, cue->raw data track, cue->2352 data track}: `ls` at every node and the exported files must be identical across the five deliveries, "
+        "every generated AKAI image and some Roland images x {raw, MODE1/2352 raw sectors, MDX wrapper, cue->raw data track, cue->2352 data track, cue->MDX data track, mixed-mode cue (2352 data track + audio tracks)}: `ls` at every node and the exported files must be identical across the seven deliveries, "
         "and equal to the Lean model's answer for each delivery (the model detects and unwraps the container itself); images with and without trailing bytes that make the size a non-multiple of 2048; "
         "detection corner cases (all-audio cue -> CDDA, text that is not a cue sheet); distinct = (image, delivery); non-trivial = image with >= 1 sample"
     )
     bad = 0
     ncases = 0
-    for i in range(ctx.n(6, 60)):
-        disc = G.random_disc(rng)
-        if i % 3 == 2:
+    n_akai = ctx.n(6, 60)
+    for i in range(n_akai + ctx.n(1, 6)):
+        if i >= n_akai:
+            # a Roland S-7xx image through the same deliveries
+            rdisc = GR.random_disc(rng)
+            while not GR.expected_export(rdisc):
+                rdisc = GR.random_disc(rng)
+            img, _ = GR.serialize(rdisc, rng)
+            exported_paths = sorted(x[:-4] for x in GR.expected_export(rdisc))
+            paths = [""] + sorted({x.rsplit("/", k)[0] for x in exported_paths for k in (1, 2)} | set(exported_paths))[: ctx.n(5, 20)]
+            disc = None
+            rep.feat("roland_images")
+        else:
+            disc = G.random_disc(rng)
+        if disc is None:
+            pass
+        elif i % 3 == 2:
             # the last thing on the disc is sample data: directory first, files contiguous, largest file last
             w = G.random_words(rng, rng.choice([700, 4500, 9000]))
             disc = G.Disc([G.Partition([G.Volume("TT", [G.SampleFile("HEAD", G.random_words(rng, 50)), G.SampleFile("TAIL", w)], dir_first=True)], sectors=14)])
             img, _ = G.serialize(disc, rng, shapes=("contiguous",))
         else:
             img, _ = G.serialize(disc, rng)
-        if i % 3 == 1:
+        if disc is None:
+            if rng.random() < 0.5:
+                img += bytes(rng.randrange(256) for _ in range(rng.choice([1, 100, 2047])))
+        elif i % 3 == 1:
             img += bytes(rng.randrange(256) for _ in range(rng.choice([1, 100, 2047, 3000])))  # size not a multiple of 2048
             rep.feat("size_not_multiple_of_2048")
         elif i % 3 == 2:
@@ -81,7 +110,8 @@ def run(ctx, rep: Report, deep: bool = False):
             img = img.rstrip(b"\x00") + bytes(rng.choice([0, 1, 3]))
             rep.feat("size_not_multiple_of_2048")
             rep.feat("tight_tail_images")
-        paths = FA.ls_paths(disc)[: ctx.n(6, 30)]
+        if disc is not None:
+            paths = FA.ls_paths(disc)[: ctx.n(6, 30)]
         with E.Scratch() as s:
             ds = deliveries(s, img)
             results = {}
@@ -119,8 +149,8 @@ def run(ctx, rep: Report, deep: bool = False):
             rep.findings.append(Finding("all-audio-cue-not-cdda", {"type": type(img).__name__}))
         rep.feat("detect_all_audio_cue")
     rep.families["container"] = {"cases": ncases, "disagreements": bad}
-    rep.sample({"family": "container", "deliveries": ["raw", "2352", "mdx", "cue-raw", "cue-2352"]})
-    rep.required_features = ["delivery_raw", "delivery_2352", "delivery_mdx", "delivery_cue-raw", "delivery_cue-2352", "size_not_multiple_of_2048", "tight_tail_images"]
+    rep.sample({"family": "container", "deliveries": ["raw", "2352", "mdx", "cue-raw", "cue-2352", "cue-mdx", "cue-2352+audio"]})
+    rep.required_features = ["delivery_raw", "delivery_2352", "delivery_mdx", "delivery_cue-raw", "delivery_cue-2352", "delivery_cue-mdx", "delivery_cue-2352+audio", "roland_images", "size_not_multiple_of_2048", "tight_tail_images"]
 
 
 def search(ctx, rep: Report):
